@@ -111,7 +111,7 @@ class HistogramND(HistogramBase):
         frequencies = self._frequencies[tuple(array_index)].copy()
         errors2 = self._errors2[tuple(array_index)].copy()
 
-        if isinstance(index, int):
+        if isinstance(index, (int, np.integer)):
             return self._reduce_dimension(
                 [ax for ax in range(self.ndim) if ax != axis_id], frequencies, errors2
             )
@@ -143,7 +143,7 @@ class HistogramND(HistogramBase):
         Always returns a new object.
         """
         # TODO: Enable views
-        if isinstance(index, (int, slice)):
+        if isinstance(index, (int, np.integer, slice)):
             return self.select(0, index)
         if isinstance(index, tuple):
             if len(index) > self.ndim:
@@ -152,7 +152,9 @@ class HistogramND(HistogramBase):
                 )
 
             # Scalar case => return (bin edges), (frequency)
-            if len(index) == self.ndim and all((isinstance(i, int) for i in index)):
+            if len(index) == self.ndim and all(
+                (isinstance(i, (int, np.integer)) for i in index)
+            ):
                 return (
                     tuple(
                         (
